@@ -38,7 +38,9 @@ RULE = (
     "+-{0,360,720}, mid/quarter points of every bin incl. the wrap bin (+-360), +-1ulp at first node and first node+360}. "
     "B: full product start angle (12) x signed jump (20, |jump| != 180) x representation {[0,360), [-180,180), unwrapped} "
     "x weight {0,1/8,1/4,1/2,3/4,7/8,1} x api {along_axis by name / by declaration / nearest, interpolate_periodic x "
-    "discont, data frame columns, Track, at_points/interpolate_dataset on a lon-periodic cube x lon grid x dim order}. "
+    "discont, data frame columns, Track, at_points/interpolate_dataset on a lon-periodic cube x lon grid x dim order; "
+    "interpolate_dataset x 4 seam-straddling tracks x periodic_data {omitted, {}, another variable only, one direction "
+    "variable, all angular variables}}. "
     "One evaluation = one (call, variable, target[, pair]) value compared with the reference. Non-trivial: the target "
     "falls in the bin that spans the wrap or is at least one period away from the grid (A); the pair crosses a seam, "
     "i.e. raw linear interpolation would give a different angle (B). distinct = distinct (api, grid/pair, layout, "
@@ -61,6 +63,7 @@ REQUIRED_CATEGORIES = [
     "wrap_bin", "periods_away", "at_node", "shift360_pairs", "nearest", "descending_grid", "seam_crossed",
     "jump_gt_180", "jump_near_180", "range_0_360_checked", "dataframe_direction", "dataframe_longitude",
     "track_longitude", "at_points_across_antimeridian", "at_points_angular", "interpolate_dataset_rows",
+    "interpolate_dataset_explicit_periodic_data",
     "periodic_fn", "spectrum_direction", "angular_on_periodic_coordinate",
 ]
 
@@ -959,27 +962,50 @@ def run_points(unit):
             "east_0_360": ([-5.0, 12.5, 20.0], [175.0, 179.5, 182.0]),
             "greenwich": ([1.0, 2.0, 3.0], [-1.0, 0.0, 2.0]),
         }
+        # a third angular field under a name the library does not recognise: angular only when the caller declares it
+        d3 = (358.0 + 20.0 * np.sin(0.9 * np.indices(hs.shape).astype(float).sum(axis=0) + 1.0)) % 360.0
+        ds_h = ds.assign(heading=(order, arr(d3)))
+        # call forms: how the caller's periodic_data combines with the name-based defaults of the front end
+        forms = {
+            "omitted": None,
+            "empty_dict": lambda: {},
+            "other_variable_only": lambda: {"heading": (360, 360)},
+            "one_direction_variable": lambda: {"mean_direction": (360, 360)},
+            "all_angular_variables": lambda: {"heading": (360, 360), "mean_direction": (360, 360),
+                                              "peak_direction": (360, 360)},
+        }
         for tname, (lats, lons) in tracks.items():
-            key0 = {"api": "interpolate_dataset", "lon_grid": g.name, "dims": "".join(d[0] for d in order), "track": tname}
-            c.case(key0)
             pts = [(int(CUBE_T[i]), lats[i], lons[i]) for i in range(3)]
             corners = corner_reference(g, pts, None)
-            try:
-                tr = Track.from_arrays(lats, lons, t64, tname)
-                out = interpolate_dataset(ds, tr)
-                frame = out["track"]
-            except Exception as exc:  # noqa
-                c.violation(dict(key0, check="raises"), f"raised {type(exc).__name__}: {exc}", traceback=tb_tail())
-                continue
-            if len(frame) != 3:
-                c.violation(dict(key0, check="rows"), f"{len(frame)} rows for 3 track points")
-                continue
-            c.cat("interpolate_dataset_rows", 3)
-            got = {k: np.asarray(frame[k].values, dtype=float) for k in ("hs", "mean_direction", "peak_direction")}
-            for nm, fld in (("mean_direction", d1), ("peak_direction", d2)):
-                k1 = dict(key0, angular_variable=nm, position="first of two" if nm == "mean_direction" else "last of two")
-                sub = {"hs": got["hs"], nm: got[nm]}
-                across = check_points(c, k1, sub, pts, corners, hs, fld, {nm: fld}, g, counts=False)
+            for fname, mk in forms.items():
+                key0 = {"api": "interpolate_dataset", "lon_grid": g.name, "dims": "".join(d[0] for d in order),
+                        "track": tname, "periodic_data": fname}
+                c.case(key0)
+                try:
+                    tr = Track.from_arrays(lats, lons, t64, tname)
+                    if mk is None:
+                        out = interpolate_dataset(ds_h, tr)
+                    else:
+                        out = interpolate_dataset(ds_h, tr, periodic_data=mk())  # a fresh dictionary for every call
+                    frame = out["track"]
+                except Exception as exc:  # noqa
+                    c.violation(dict(key0, check="raises"), f"raised {type(exc).__name__}: {exc}", traceback=tb_tail())
+                    continue
+                if len(frame) != 3:
+                    c.violation(dict(key0, check="rows"), f"{len(frame)} rows for 3 track points")
+                    continue
+                c.cat("interpolate_dataset_rows", 3)
+                c.cat("interpolate_dataset_explicit_periodic_data", 3 if mk is not None else 0)
+                got = {k: np.asarray(frame[k].values, dtype=float)
+                       for k in ("hs", "mean_direction", "peak_direction", "heading")}
+                # direction variables are angular by name in every call form; 'heading' only where declared
+                checks = [("mean_direction", d1, "first of two"), ("peak_direction", d2, "last of two")]
+                if fname in ("other_variable_only", "all_angular_variables"):
+                    checks.append(("heading", d3, "declared by the caller"))
+                for nm, fld, pos in checks:
+                    k1 = dict(key0, angular_variable=nm, position=pos)
+                    sub = {"hs": got["hs"], nm: got[nm]}
+                    across = check_points(c, k1, sub, pts, corners, hs, fld, {nm: fld}, g, counts=False)
             c.nontriv(n=across)
     c.sample({"api": unit["api"], "lon_grid": g.nodes[:5], "dims": list(order), "point_longitudes": POINT_LON[:10]})
     return c.result()
